@@ -17,8 +17,17 @@ NOTES = {  # seed -> (after, what was strengthened)
  "C07_m2": ("caught (C07 correspondence + oracle)", "Census.v sel_tags models `tags or [default]`; operations with an empty tag list, duplicate and colliding tags"),
  "C08_m2": ("caught (C08 correspondence + oracle; also C20)", "relative-file references naming an existing local component at every position; abstraction no longer calls the real parse_reference_path"),
  "C09_m2": ("caught (C09 correspondence procprops_corr)", "ProcProps.v: model + theorems of the merge / rename interaction of _process_properties"),
- "C09b_m1": ("see C09 scope extension (enum class-name scope)", "Scopes.v enum case of the class-name scope, twins with coinciding member names"),
- "C09b_m2": ("caught by C01 (file set vs Fs.gen_files); C09 file-name oracle added", "generated path components compared with Names.python_identifier"),
+ "C09b_m1": ("caught (C09 correspondence + oracle)", "Scopes.v model_decls: EnumProperty.build's twin handling in the class-name scope (theorem enum_classes_distinct_or_shared); twins whose member names coincide while values differ"),
+ "C09b_m2": ("caught (C09 oracle + correspondence; C01 file set vs Fs.gen_files caught it at once)", "every directory / module stem of generated trees compared with Names.python_identifier over hostile operationIds, tags, schema names"),
+ "C01c_m1": ("caught (C01 stage A name closure + import)", "reserved_doc: classes whose module name is a reserved word (type_, format_, list_, self_ ...) in every position x {default, literal_enums, class_overrides}; added to the regenerated closure probes (GenClosed.v)"),
+ "C01c_m2": ("caught (C01 compile)", "operations whose ONLY non-path inputs are in one location, optional declared before required, and path parameters with defaults, for query / header / cookie"),
+ "C02c_m1": ("caught (C02 correspondence)", "atlas model `Defaults`: optional properties with a schema default of every scalar kind (incl. falsy defaults), required-with-default"),
+ "C03c_m1": ("caught (C03 oracle: path from the document)", "paths whose literal segments contain a renamed parameter's wire name"),
+ "C03c_m2": ("caught (C03 correspondence + oracle)", "NEW MODEL Client.v (AuthenticatedClient life cycle: shared headers dict, cached httpx clients, evolve / with_* / token assignment) with ClientThm.own_credential proved for every operation sequence; random + fixed operation sequences run on the generated client"),
+ "C04c_m1": ("caught (C04 response-plan correspondence + oracle)", "documents generated WITH content_type_overrides (media types that become text / json / octet-stream / form only through the option); expectation applies the overrides"),
+ "C10c_m1": ("caught (C10 oracle + type correspondence)", "grid re-run under literal_enums; enum with a repeated member"),
+ "C10c_m2": ("caught (C10: models package import; also C01)", "grid declares the required-with-default property BEFORE the required ones without default"),
+ "C19c_m1": ("caught (C19 oracle + hook_cwd correspondence)", "post hooks: a marker hook that rewrites *.py below its working directory, all four flavours, with sentinel files around the output directory; Fs.hook_cwd"),
  "C10_m1": ("caught (C10 oracle, C02 correspondence)", "falsy-but-present values (0, \"\", false, {}, []) in the C02 atlas and the C10 grid"),
  "C10_m2": ("caught (C10 oracle; C15 caught it at once)", "allOf-refined required properties in the C10 grid"),
  "C10b_m1": ("caught (C10 oracle; also C15)", "allOf members that carry only `required`"),
@@ -48,9 +57,10 @@ text = f"""### 10.2 Seeded changes (independent sub-agents; /verif/seeded/<id>/)
 Each change was produced by a fresh sub-agent that saw only the property text and its own scratch worktree (nothing from /verif), and
 was re-verified by the coordinator (demo exits 0 on the clean tree and 1 with the patch; the pinned suite has the same pass/fail
 set with the patch). Seeds `C??b_*` are a SECOND generation for the same property: their authors were told which earlier changes
-to avoid, so they measure how the strengthened checks generalise. "first run" = the property's own quick check as it stood when
+to avoid, so they measure how the strengthened checks generalise; seeds `C??c_*` are a THIRD generation (told to avoid the earlier
+four). "first run" = the property's own quick check as it stood when
 the change arrived ({c} of {n} caught); every miss led to a strengthening of generators, oracles or models, never to a special case
-for the seed. After strengthening all {n} are caught (C09b_m1 by the C09 scope extension).
+for the seed. After strengthening all {n} are caught by the property's own quick check (re-tested with harness/seedtest_iso.py on isolated copies).
 
 | seed | change | first run | after | what was strengthened |
 |---|---|---|---|---|
